@@ -484,13 +484,18 @@ func rangeScan[K nodeKey, V any, L nodeLeaf[V]](
 	}
 
 	return func(yield func(K, V) bool) {
-		var q []nodeRef
+		var (
+			q      []nodeRef
+			depths []int // depths[i] is the number of key bytes consumed above q[i]
+		)
 
-		depth := 0
 		q = append(q, root)
+		depths = append(depths, 0)
 		for len(q) != 0 {
 			n := q[len(q)-1]
 			q = q[:len(q)-1]
+			depth := depths[len(depths)-1]
+			depths = depths[:len(depths)-1]
 
 			if n.tag == nodeKindLeaf {
 				leaf := (L)(n.pointer)
@@ -520,12 +525,15 @@ func rangeScan[K nodeKey, V any, L nodeLeaf[V]](
 				}
 			}
 
+			childDepth := depth + int(node.prefixLen) + 1
+
 			switch n.tag {
 			case nodeKind4:
 				n4 := (*node4)(n.pointer)
 
 				for i := int(n4.childrenLen) - 1; i >= 0; i-- {
 					q = append(q, n4.children[i])
+					depths = append(depths, childDepth)
 				}
 
 			case nodeKind16:
@@ -533,6 +541,7 @@ func rangeScan[K nodeKey, V any, L nodeLeaf[V]](
 
 				for i := int(n16.childrenLen) - 1; i >= 0; i-- {
 					q = append(q, n16.children[i])
+					depths = append(depths, childDepth)
 				}
 
 			case nodeKind48:
@@ -544,6 +553,7 @@ func rangeScan[K nodeKey, V any, L nodeLeaf[V]](
 						continue
 					}
 					q = append(q, n48.children[idx-1])
+					depths = append(depths, childDepth)
 				}
 
 			case nodeKind256:
@@ -554,13 +564,12 @@ func rangeScan[K nodeKey, V any, L nodeLeaf[V]](
 						continue
 					}
 					q = append(q, n256.children[i])
+					depths = append(depths, childDepth)
 				}
 
 			default:
 				panic("shouldn't be possible!")
 			}
-
-			depth += int(node.prefixLen) + 1
 		}
 	}
 }
